@@ -146,7 +146,22 @@ def call(trajs, case, how=None):
         C = assigns_to_counts(x, case["lag"], max_n_states=case["max_n_states"],
                               sliding_window=case["sliding"])
     require(scipy.sparse.issparse(C) or isinstance(C, np.ndarray), "unexpected return type %s" % type(C))
-    return np.asarray(C.toarray() if scipy.sparse.issparse(C) else C)
+    dense = np.array(C.toarray() if scipy.sparse.issparse(C) else C, copy=True)
+    if case.get("entry", "function") != "MSM.fit" and len(trajs) >= 1:
+        # the returned matrix belongs to the caller: counting OTHER (fewer) assignments afterwards may not rewrite it
+        sub = [t[: max(1, len(t) // 2)] for t in trajs[: max(1, len(trajs) // 2)] if len(t)]
+        if sub:
+            y = build_input(sub, "ragged" if dtype.startswith("u") else "padded", dtype)
+            if y is not None:
+                try:
+                    assigns_to_counts(y, case["lag"], max_n_states=dense.shape[0], sliding_window=case["sliding"])
+                except Exception:
+                    pass
+                again = np.asarray(C.toarray() if scipy.sparse.issparse(C) else C)
+                require(again.shape == dense.shape and np.array_equal(again, dense),
+                        "a count matrix returned earlier changed when other assignments were counted",
+                        before=dense.tolist(), after=again.tolist())
+    return dense
 
 
 def info(case):
